@@ -239,6 +239,45 @@ def imagingApplyMask (data noise : List α) (gm : GMask α) (kh kw : Nat) (zero 
   if blurringFits gm.mask kh kw then (d, n)
   else (paddedBeforeConvolution d kh kw true zero, paddedBeforeConvolution n kh kw true zero)
 
+/-! ### successive `apply_mask` calls (`self.unmasked` bookkeeping) -/
+
+/-- `Mask.is_all_false`: `pixels_in_mask == np.size(mask)` -/
+def isAllFalse (m : Mask) : Bool := totalPixels m == m.h * m.w
+
+/-- what `apply_mask` reads and writes of an `Imaging` object: its (masked) data and noise map and
+    the retained unmasked dataset `self.unmasked` (its data and noise map), `None` on a fresh dataset -/
+structure ImagingState (α : Type) where
+  data : Arr α
+  noise : Arr α
+  unmasked : Option (Arr α × Arr α)
+deriving Repr, DecidableEq
+
+/-- a fresh unmasked dataset (`Array2D.no_mask` data and noise map of the same geometry) -/
+def imagingInit (data noise : List α) (h w : Nat) (g : Geom α) : ImagingState α :=
+  let gm : GMask α := ⟨⟨h, w, List.replicate (h * w) false⟩, g⟩
+  { data := ⟨gm, data, false⟩, noise := ⟨gm, noise, false⟩, unmasked := none }
+
+/-- `Imaging.apply_mask(mask)` as a state transition: the source of the values is `self` when
+    `self.data.mask.is_all_false`, else `self.unmasked`; data and noise map are re-built from the
+    source's native arrays on the new mask (then padded as in `imagingApplyMask`); the result's
+    `unmasked` is the source.  `none`: `self.unmasked` is `None`, or the native arrays do not have
+    the mask's shape (the `Array2D` constructor raises). -/
+def imagingApplyMaskStep (s : ImagingState α) (gm : GMask α) (kh kw : Nat) (zero : α) :
+    Option (ImagingState α) :=
+  let src := if isAllFalse s.data.gm.mask then some (s.data, s.noise) else s.unmasked
+  match src with
+  | none => none
+  | some u =>
+    if u.1.gm.mask.h ≠ gm.mask.h ∨ u.1.gm.mask.w ≠ gm.mask.w then none
+    else
+      let r := imagingApplyMask u.1.native u.2.native gm kh kw zero
+      some { data := r.1, noise := r.2, unmasked := some u }
+
+/-- a sequence of `apply_mask` calls -/
+def imagingApplyMasks (s : ImagingState α) (gms : List (GMask α)) (kh kw : Nat) (zero : α) :
+    Option (ImagingState α) :=
+  gms.foldl (fun acc gm => acc.bind fun st => imagingApplyMaskStep st gm kh kw zero) (some s)
+
 /-! ### zoom -/
 
 /-- `Mask2D.zoom_region`: bounding box of the unmasked pixels (`np.where`/`amin`/`amax` → folds over
